@@ -456,6 +456,54 @@ C16Modify(pre, e, post, increase) ==
                    v.amountA \doteq td[1] /\ v.amountB \doteq td[2] /\ v.feeA \doteq TfFee(cA, td[1]) /\ v.feeB \doteq TfFee(cB, td[2]))
 
 -----------------------------------------------------------------------------
+(* C14: adaptive fees.  o = oracle record of the pool (constants + variables), g = tick group. *)
+HardLimit == 100000
+AfRefAfter(o, g0, now) ==      \* reference fields after update_reference at swap start
+  LET maxTs == BMax(o.refTs, o.majorTs)
+      age   == now -- o.refTs
+      el    == now -- maxTs
+  IN IF 3600 \prec age THEN [groupRef |-> g0, volRef |-> 0, refTs |-> now]
+     ELSE IF el \prec o.filter THEN [groupRef |-> o.groupRef, volRef |-> o.volRef, refTs |-> o.refTs]
+     ELSE IF el \prec o.decay THEN [groupRef |-> g0, volRef |-> BDiv(o.volAcc \otimes o.reduction, 10000), refTs |-> now]
+     ELSE [groupRef |-> g0, volRef |-> 0, refTs |-> now]
+AfAcc(o, ref, g) == BMin(ref.volRef ++ (BAbs(ref.groupRef -- g) \otimes 10000), o.maxAcc)
+AfAdaptiveRate(o, acc) ==
+  LET crossed == acc \otimes o.groupSize IN
+  BMin(CeilDiv(o.factor \otimes (crossed \otimes crossed), (100000 \otimes 10000) \otimes 10000), HardLimit)
+AfTotalRate(o, static, acc) == BMin(static ++ AfAdaptiveRate(o, acc), HardLimit)
+Clamp(x, lo, hi) == IF x \prec lo THEN lo ELSE IF hi \prec x THEN hi ELSE x
+
+C14Swap(pre, e, post) ==
+  LET sw   == e.swaps[1]
+      p    == APool(e)
+      o    == pre.oracle[p]
+      o2   == post.oracle[p]
+      st_  == pre.pool[p].feeRate
+      ref  == AfRefAfter(o, sw.startGroup, e.now)
+      dir  == IF e.args.aToB THEN -1 ELSE 1
+      ends == {sw.endGroup} \cup (IF sw.endOnBoundary THEN {sw.endGroup - 1} ELSE {})
+      okG  == ends \cup {g + dir : g \in ends}
+      lo_  == BMin(pre.pool[p].sqrtPrice, post.pool[p].sqrtPrice)
+      hi_  == BMax(pre.pool[p].sqrtPrice, post.pool[p].sqrtPrice)
+      major == BDiv(lo_ \otimes sw.majorFactor, BPow2(64)) \preceq hi_
+  IN /\ Sub("one_swap_record", Len(e.swaps) = 1 /\ sw.done)
+     /\ Sub("trade_enabled", o.tradeEnableTs \preceq e.now)
+     /\ Sub("timestamp_valid", BMax(o.refTs, o.majorTs) \preceq e.now)
+     /\ Sub("reference_rules", o2.groupRef = ref.groupRef /\ o2.volRef \doteq ref.volRef /\ o2.refTs \doteq ref.refTs)
+     \* every part of the swap is charged static + adaptive(rate of that price's tick group)
+     /\ Sub("rate_of_every_group", \A i \in DOMAIN sw.steps :
+            LET s == sw.steps[i] IN
+            (s.moved /\ ~(s.liq \doteq 0)) =>
+               \A g \in {s.gmin, s.gmax, Clamp(ref.groupRef, s.gmin, s.gmax)} : s.rate \doteq AfTotalRate(o, st_, AfAcc(o, ref, g)))
+     /\ Sub("rate_bounds", \A i \in DOMAIN sw.steps : st_ \preceq sw.steps[i].rate /\ sw.steps[i].rate \preceq HardLimit)
+     /\ Sub("accumulator_capped", o2.volAcc \preceq o.maxAcc)
+     /\ Sub("accumulator_of_end_group", \E g \in okG : o2.volAcc \doteq AfAcc(o, ref, g))
+     /\ Sub("major_swap_timestamp", o2.majorTs \doteq (IF major THEN e.now ELSE o.majorTs))
+     /\ Sub("zero_factor_is_static", (o.factor = 0) => \A i \in DOMAIN sw.steps : sw.steps[i].rate \doteq st_)
+     /\ Sub("constants_untouched", o2.filter = o.filter /\ o2.decay = o.decay /\ o2.reduction = o.reduction /\ o2.factor = o.factor
+                                   /\ o2.maxAcc \doteq o.maxAcc /\ o2.groupSize = o.groupSize /\ o2.majorTicks = o.majorTicks)
+
+-----------------------------------------------------------------------------
 (* ghost update *)
 SegAfter(pre, e, post) ==
   \* cumulative trader gains per pool over a run of swaps
@@ -507,6 +555,7 @@ IxOK(pre, e, post) ==
   /\ IF e.name \in {"collect_protocol_fees", "collect_protocol_fees_v2"}
      THEN Chk("C06", "collect_protocol", NoTransferFee(pre, APool(e)) => C06CollectProtocol(pre, e, post))
      ELSE TRUE
+  /\ IF IsSwapName(e.name) /\ APool(e) \in DOMAIN pre.oracle THEN Chk("C14", "adaptive_swap", C14Swap(pre, e, post)) ELSE TRUE
   /\ IF e.name = "swap_v2" THEN Chk("C16", "swap_v2", C16Swap(pre, e, post)) ELSE TRUE
   /\ IF e.name = "increase_liquidity_v2" THEN Chk("C16", "increase_v2", C16Modify(pre, e, post, TRUE)) ELSE TRUE
   /\ IF e.name = "decrease_liquidity_v2" THEN Chk("C16", "decrease_v2", C16Modify(pre, e, post, FALSE)) ELSE TRUE
